@@ -98,6 +98,25 @@ Example C04_make_archive_outside :
     Some ([STR "(x)"; STR "y)"; STR "foo(1).o"], [STR "p(q"], [STR "r)"]).
 Proof. repeat split; vm_compute; reflexivity. Qed.
 
+(* the find_files depfile (builtins/find.py write_depfile, Make backend): every walked directory is written as a
+   prerequisite of the regeneration output AND as a target of its own (empty rule); GNU Make reads every line back as
+   the declared rule, for directories representable on both sides *)
+From BFG Require Import Make.MakeDepfile Make.MakeDepfileProofs.
+Theorem C04_depfile_rt : forall us out dirs,
+  tname_ok us out = true -> ar_free [out] = true -> forallb (dir_ok us) dirs = true -> ar_free dirs = true ->
+  map parse_rule_header (depfile_lines us out dirs true) =
+  Some ([out], dirs, []) :: map (fun d => Some ([d], @nil str, @nil str)) dirs.
+Proof. exact depfile_rt. Qed.
+Print Assumptions C04_depfile_rt.
+
+Example C04_depfile_nonvacuous :
+  let nu := fun _ : char => false in
+  let dirs := [STR "/s r/src"; STR "/s r/src/opt x"; STR "/s r/src/a#b"; STR "gen/d:e"] in
+  tname_ok nu (STR "Makefile") = true /\ forallb (dir_ok nu) dirs = true /\ ar_free dirs = true /\
+  map parse_rule_header (depfile_lines nu (STR "Makefile") dirs true) =
+  Some ([STR "Makefile"], dirs, []) :: map (fun d => Some ([d], @nil str, @nil str)) dirs.
+Proof. repeat split; vm_compute; reflexivity. Qed.
+
 (* the sentinel  dir/.dir  of a representable directory is a representable target (so C04_make_target_rt and
    C04_make_rule_rt apply to it), and  patsubst %/.dir,%  gives the directory back when it contains no blank *)
 Theorem C04_dirs : forall us d,
